@@ -201,6 +201,8 @@ class Runner:
         for sym in sched:
             await self.step(sym, fine)
         await self.finish()
+        if fs.FAKE_GAPS:
+            self.ev.append({"e": "fakegap", "what": fs.FAKE_GAPS[-1], "d": {"st": 0, "cfg": 0, "idx": 0}})
         return self.ev
 
 
@@ -249,7 +251,10 @@ def generate(tr):
     allreq = ["cfg1", "cfg2", "up1", "up2", "search"]
     if tr == "quick":
         # exhaustive: 2 connections x <=2 requests over the three state-changing requests, coarse scheduling
-        run(2, 2, 0, False, 9, ["cfg1", "up1", "up2"], cap=2500, name="a")
+        # exhaustive, not sampled: 2 connections x at most one request each over the state-changing requests
+        run(2, 1, 0, False, 8, ["cfg1", "up1", "up2"], name="a0")
+        # 2 connections x <= 2 requests: seeded sample of the 17.7k schedules (thorough takes more)
+        run(2, 2, 0, False, 9, ["cfg1", "up1", "up2"], cap=2000, name="a")
         # sampled: 3 connections, fine scheduling with explicit loop iterations
         run(3, 2, 6, True, 16, allreq, simulate="num=1500", cap=2000, name="b")
         run(3, 1, 0, False, 10, ["cfg1", "up1", "search"], cap=1500, name="c")
@@ -257,6 +262,8 @@ def generate(tr):
         run(2, 1, 0, False, 9, ["cfg1", "up1", "up2"], cap=1500, name="x", withx=True)
         run(2, 2, 4, True, 14, ["cfg1", "up1", "up2"], simulate="num=800", cap=1000, name="y", withx=True)
     else:
+        run(2, 1, 0, False, 8, ["cfg1", "up1", "up2"], name="a0")
+        run(3, 1, 0, False, 9, ["cfg1", "up1"], name="c0")          # exhaustive: 3 connections x at most one request
         run(2, 2, 0, False, 9, allreq, cap=20000, name="a")
         run(3, 2, 8, True, 20, allreq, simulate="num=20000", cap=15000, name="b")
         run(3, 1, 0, False, 11, allreq, cap=12000, name="c")
@@ -301,6 +308,9 @@ def main(argv_tier=None, replay_path=None):
     traces = [{"tid": "s%d" % k, "ev": ev, "schedule": sched, "fine": fine}
               for (k, (sched, fine)), ev in zip(enumerate(scheds), evs)]
     verdicts, agg = validate_traces("Trace_Overlap", [{"tid": t["tid"], "ev": t["ev"]} for t in traces], consts=CONSTS)
+    gaps = [e["what"] for t in traces for e in t["ev"] if e.get("e") == "fakegap"]
+    if gaps:
+        raise MachineryError("the fake websocket lacks a part of the protocol API that the server code uses: %s" % gaps[0])
     rej = []
     for t in traces:
         v = verdicts[t["tid"]]
